@@ -12,6 +12,8 @@ core.build(quiet=False)
 try:
     from mv import ffi
     ffi.build_probe(quiet=False)
+    if hasattr(ffi, "build_variants"):
+        ffi.build_variants()
 except ImportError:
     pass
 PY
